@@ -359,7 +359,7 @@ theorem sysOpen_rdonly (fs fs0 : Fs) (src : Bytes) (fd : Fd) (h : sysOpen fs src
   by_cases hne : src = []
   · simp [hne] at h
   · rw [if_neg hne] at h
-    cases hw : walk fs walkFuel (if startsWith47 src = true then [] else cwd) (chunks src) true with
+    cases hw : walk fs walkFuel (if startsWith47 src = true then [] else cwd) (kchunks src) true with
     | found p e0 =>
       rw [hw] at h
       cases e0 with
@@ -537,6 +537,9 @@ theorem fileCopy_failed_noNew (fs : Fs) (src dst : Bytes) (fie : Bool) (fault : 
       by_cases hdir : fd.isDir = true
       · rw [if_pos hdir]; exact NoNew.refl _
       · rw [if_neg hdir] at h ⊢
+        by_cases hsame : sameFile fs0 fd dst = true
+        · rw [if_pos hsame]; exact NoNew.refl _
+        rw [if_neg hsame] at h ⊢
         have hdir' : fd.isDir = false := by simpa using hdir
         obtain ⟨d, hget, hpne⟩ := hfile hdir'
         cases ho2 : sysOpen fs0 dst { acc := .wronly, creat := true, excl := fie, trunc := true } with
